@@ -30,6 +30,18 @@ CHECKS = {
         "points and grids beyond the bounds are not covered; (b) relies on C03 for the nonlinear terms themselves.",
         "DESIGN.md §4 C02",
     ),
+    "C03": (
+        "bounded exhaustive exploration: complete simplex lattice |a|<=d over the in-band Fourier basis (polynomial lift) + every out-of-band basis vector, lock-step with a fine-grid alias-free oracle",
+        "Each built-in nonlinear term is a polynomial map of degree d<=3 of the band-truncated state; a polynomial of degree <=d is fixed by its values on "
+        "the principal simplex lattice, which the harness enumerates completely over the real Fourier basis of the retained band (all channels), for "
+        "every N of a contiguous range covering all residues mod 12 (1D) / mod 6 (2D) and D=1..3 where defined, both dealiasing fractions. For every "
+        "out-of-band or Nyquist basis vector e the pair (v, v+e) must give the same output. The oracle evaluates the documented continuous operator on "
+        "a zero-padded grid with 2dK+1 points (no aliasing possible) and truncates to the documented band, so values inside and zeros outside the band "
+        "are both decided. Dense ternary lattices and full-band superpositions cross-probe the polynomial assumption.",
+        "Trusted: the fine-grid oracle and band formula in mc/ref.py + mc/props/C03.py (numpy only). Bounds: N ranges in evidence.bounds; lattices larger "
+        "than 12k states (quick) / 700k states (thorough) are skipped (3D with K>=2 multi-channel); L and scale rotate through their lattices with N in quick.",
+        "DESIGN.md §4 C03",
+    ),
     "C04": (
         "bounded exhaustive exploration: every wavevector of every grid x amplitude/phase x scaling mode x indexing; every grid delta for the round trip",
         "Every wavevector k of the N^D grid (all sign combinations, DC, every Nyquist combination) is turned into a single-mode field on the library's "
